@@ -24,7 +24,7 @@ ASSUMPTIONS = ['reference semantics: "before" uses the first, "after" the last o
                'insert/append: only paragraph order and whole-text preservation are demanded; which side of a free-floating comment '
                'the new paragraph lands on and where the separating blank line goes are left free',
                'operations that raise (self-relative re-order, missing key/index) need only leave a document made of whole fields',
-               'sort_fields() with the default key: only permutation / stability / idempotence are demanded']
+               'sort_fields() without a key sorts case-insensitively by field name (the documented default_field_sort_key), stably']
 ANCHORS = ['debian._deb822_repro.parsing:Deb822NoDuplicateFieldsParagraphElement.order_first',
            'debian._deb822_repro.parsing:Deb822NoDuplicateFieldsParagraphElement.order_last',
            'debian._deb822_repro.parsing:Deb822NoDuplicateFieldsParagraphElement.order_before',
@@ -294,7 +294,9 @@ def _history(ctx, case, f, model, paras):
                     getattr(live, kind)(*args)
                 elif kind == 'sort':
                     if op[2] == 'default':
+                        # documented default: case-insensitive by field name (default_field_sort_key), stable
                         live.sort_fields()
+                        expected = sorted(fields, key=lambda fl: fl['name'].lower())
                     else:
                         live.sort_fields(key=SORT_KEYS[op[2]])
                         expected = sorted(fields, key=lambda fl: SORT_KEYS[op[2]](fl['name']))
